@@ -45,7 +45,8 @@ def dmd_case(draw):
     flags = [draw(st.booleans()), draw(st.booleans())] if rep in ('preorth', 'orthonormal') else [True, True]
     case = {'dims': dims, 'm': m, 'r': r, 'rep': rep, 'flags': flags, 'threshold': draw(st.sampled_from([0, 0, 1e-9])),
             'variant': draw(st.sampled_from(['exact', 'standard'])), 'seed': draw(gen.SEED),
-            'scale_exp': draw(st.sampled_from([0, 0, -3, -12, 6])), 'ykind': draw(st.sampled_from(['linear', 'linear', 'perturbed_lowrank']))}
+            'scale_exp': draw(st.sampled_from([0, 0, -3, -12, 6])), 'ykind': draw(st.sampled_from(['linear', 'linear', 'perturbed_lowrank'])),
+            'update_in_place': draw(st.sampled_from([False, True]))}
     if rep in ('ttsvd', 'orthonormal') and draw(st.booleans()):
         # a cut that really cuts: prescribed singular values of X, `r` of them in [0.1, 1] and `small` of them around 1e-5,
         # with the threshold 1e-3 in the gap (only on representations whose orthonormalisation sweeps see singular values
@@ -155,6 +156,25 @@ def body(c):
             res = np.linalg.norm(P @ (M @ phi) - ev[k] * phi)
             require(res <= 1e-6 * nM * nphi, 'standard_modes', 'mode %d: ||U U^H (Y X^+) phi - lambda phi|| = %.3e' % (k, res))
     lab = {c['variant'], 'rep_' + c['rep']}
+    if c.get('update_in_place') and c['flags'] == [True, True] and c['threshold'] != 1e-3:
+        # streaming use: the snapshot core of the SAME tensor-train object is replaced (here: snapshots mixed by an invertible
+        # matrix) and the decomposition is asked for again with identical options -- it must describe the new data
+        Tm = np.eye(m) + 0.4 * rng.standard_normal((m, m))
+        if np.linalg.cond(Tm) < 50:
+            x.cores[-1] = np.einsum('aibc,ij->ajbc', x.cores[-1], Tm)
+            X2 = X @ Tm
+            U2, s2, Vh2 = np.linalg.svd(X2, full_matrices=False)
+            U2, s2, Vh2 = U2[:, :r], s2[:r], Vh2[:r]
+            lam2 = np.linalg.eigvals(U2.T @ Y @ Vh2.T / s2)
+            l2 = np.max(np.abs(lam2))
+            g2 = [abs(lam2[i] - lam2[j]) for i in range(r) for j in range(i + 1, r)]
+            if s2[-1] > 1e-5 * s2[0] and l2 > 0 and np.min(np.abs(lam2)) > 1e-3 * l2 and (not g2 or min(g2) > 1e-3 * l2):
+                ev2, _ = f(x, y, threshold=c['threshold'], ortho_l=True, ortho_r=True)
+                ev2 = np.asarray(ev2)
+                require(ev2.ndim == 1 and ev2.shape[0] == r and match_multisets(ev2, lam2, 1e-7 * l2), 'eigenvalues',
+                        'after the snapshot core of the same object was replaced: TDMD eigenvalues %s, matrix DMD of the new data %s'
+                        % (np.sort_complex(ev2), np.sort_complex(lam2)))
+                lab.add('snapshot_core_replaced_in_place')
     if r < min(N, m):
         lab.add('rank_deficient')
     if len(dims) >= 2:
@@ -185,5 +205,5 @@ def nt(labels):
 SUBCHECKS = [
     Sub('tdmd', dmd_case(), body, nt, quick=300, thorough=3000, shards_quick=8,
         classes=['exact', 'standard', 'rank_deficient', 'rep_gauge', 'rep_preorth', 'flags_off', 'multi_mode', 'threshold>0', 'complex_eigenvalues',
-                 'size1mode', 'rescaled_data', 'only_left_preorthonormalised', 'cut_active', 'y_perturbed_lowrank']),
+                 'size1mode', 'rescaled_data', 'only_left_preorthonormalised', 'cut_active', 'y_perturbed_lowrank', 'snapshot_core_replaced_in_place']),
 ]
